@@ -24,7 +24,7 @@ def op? (t : String) : Option Op :=
     if th = 't' then pure (.q k m true) else if th = 'n' then pure (.q k m false) else none
   | [c, k] => do
     let k ← digit? k
-    if c = 'm' then pure (.m k) else if c = 'r' then pure (.r k) else if c = 'x' then pure (.x k)
+    if c = 'm' then pure (.m k) else if c = 'a' then pure (.a k) else if c = 'r' then pure (.r k) else if c = 'x' then pure (.x k)
     else if c = 'c' then pure (.c k) else if c = 'T' then pure (.T k) else none
   | _ => none
 
@@ -68,7 +68,7 @@ def renderOutcome : Outcome → String
   | .ok => "ok" | .timeout => "to" | .canceled => "ca"
 
 def renderEntry : Entry → String
-  | .handled k => "m" ++ toString k
+  | .handled k => if k ≥ 100 then "a" ++ toString (k - 100) else "m" ++ toString k
   | .held => "H"
   | .req k r => "q" ++ toString k ++ "=" ++ (match r with | .ok => "ok" | .lim => "lim" | .dis => "dis")
   | .cb k o t => "cb" ++ toString k ++ ":" ++ renderOutcome o ++ ":" ++ (if t then "1" else "0")
@@ -107,6 +107,7 @@ def entry? (s : String) : Option Entry :=
     | [k, o, t] => do pure (.cb (← k.toNat?) (← outcome? o) (t = "1"))
     | _ => none
   else if s.startsWith "m" then (s.drop 1).toString.toNat?.map .handled
+  else if s.startsWith "a" then (s.drop 1).toString.toNat?.map (fun k => Entry.handled (100 + k))
   else if s.startsWith "q" then
     match (s.drop 1).toString.splitOn "=" with
     | [k, r] => do
